@@ -89,7 +89,10 @@ def r2_pagination(ctx):
         'S3 listing: the continuation token sent with the next request is not taken from the current response (pages are repeated or skipped)',
     )
     clears = [a for a in walk_local(lp) if isinstance(a, ast.Assign) and any(isinstance(t, ast.Name) and t.id == cond_name for t in a.targets)]
-    term_ok = cond_name is not None and clears and all(isinstance(a.value, ast.Constant) and a.value.value is False and any(isinstance(i, ast.If) and any(isinstance(c, ast.Constant) and c.value == 'IsTruncated' for c in ast.walk(i.test)) and any(isinstance(c, ast.Constant) and c.value == 'false' for c in ast.walk(i.test)) for i in ancestors(a)) for a in clears)
+    def _guard_consts(a):
+        return {c.value for i in ancestors(a) if isinstance(i, ast.If) and any(x is i for x in ast.walk(lp)) for c in ast.walk(i.test) if isinstance(c, ast.Constant)}
+
+    term_ok = cond_name is not None and clears and all(isinstance(a.value, ast.Constant) and a.value.value is False and {'IsTruncated', 'false'} <= _guard_consts(a) for a in clears)
     ctx.check(term_ok, 'C13.R2', f'{func_label(lf)}|s3-terminates-on-marker', loc(lf, lp), "S3 listing: the loop ends only when the response says IsTruncated == 'false'", 'S3 listing: the loop condition is not cleared exactly by the IsTruncated=false marker (premature end or endless listing)')
     ys = [y for y in walk_local(lp) if isinstance(y, ast.Yield)]
     ctx.check(bool(ys) and all(isinstance(y.value, ast.Attribute) and y.value.attr == 'text' for y in ys) and not any(isinstance(n, (ast.Break, ast.Return)) for n in walk_local(lp)), 'C13.R2', f'{func_label(lf)}|s3-yields-every-key', loc(lf, lp), 'S3 listing: every Key element of every page is yielded; no early exit', 'S3 listing: keys can be dropped (early exit / transformed yield)')
